@@ -18,8 +18,8 @@ EXPLANATION = ('Every as_*, From, TryFrom impl and every array/tuple/extend/trun
                'destination element types (Rust `as` semantics by language definition); From must be a lossless pair; TryFrom must be '
                'Ok exactly when every lane fits; structural conversions must copy elements bit-for-bit in order.')
 
-CONFIGS_QUICK = ['sse2', 'sse2-fma', 'scalar']
-CONFIGS_THOROUGH = ['sse2', 'sse2-fma', 'scalar', 'coresimd', 'neon', 'wasm32']
+CONFIGS_QUICK = ['sse2', 'sse2-fma', 'sse41', 'scalar', 'coresimd', 'neon', 'wasm32']
+CONFIGS_THOROUGH = ['sse2', 'sse2-fma', 'sse41', 'scalar', 'coresimd', 'neon', 'wasm32']
 FLOOR = {'as': 350, 'from_num': 110, 'tryfrom': 150, 'copy': 300}
 
 
